@@ -68,7 +68,7 @@ theorem C03_exact_report (c : Cfg) (hnc : 0 < c.nc) (ss : Nat) (v0 d : V) (chs :
     (b : Int) (v : V) (a rj : Nat) (dr : List Nat)
     (hret : Act.ret (.ok b v a rj) dr ∈ (run c ss (some v0) d chs evs).2) : a + rj = N := by
   have h2 := run_inv2 c hnc ss v0 d chs evs
-  obtain ⟨hd, ho⟩ := h2.retOut _ _ hret
+  obtain ⟨hd, ho, _⟩ := h2.retOut _ _ hret
   obtain ⟨e1, _⟩ := h2.exact hab hd ht N hN
   simp only [outcome] at ho
   split at ho
